@@ -1571,3 +1571,449 @@ Section DefaultEntry.
       destruct Hj as [_ [_ E]]. symmetry. exact E.
   Qed.
 End DefaultEntry.
+
+(* ------------------------------------------------------------------ *)
+(* reading the guard                                                   *)
+(* ------------------------------------------------------------------ *)
+
+Lemma id_chars_exclude : forall c n, is_id_char c = false -> forallb is_id_char n = true -> mem_c c n = false.
+Proof.
+  intros c n Hc Hn. destruct (mem_c c n) eqn:E; [|reflexivity]. exfalso.
+  apply mem_c_In in E. rewrite forallb_forall in Hn. rewrite (Hn c E) in Hc. discriminate.
+Qed.
+
+Lemma is_ident_good : forall n, is_ident n = true -> endswith (L "kwargs") n = false ->
+    good_name n /\ mem_c nl n = false.
+Proof.
+  intros n Hi Hk. unfold is_ident in Hi. destruct n as [|c r]; [discriminate|].
+  apply andb_true_iff in Hi. destruct Hi as [Hs Hall].
+  split; [split; [|split; [split|]]|].
+  - apply (id_chars_exclude colon); [reflexivity|exact Hall].
+  - exact Hk.
+  - change (L "**") with [ch 42; ch 42]. cbn [startswith].
+    destruct (ascii_eqb (ch 42) c) eqn:E; [|reflexivity].
+    apply ascii_eqb_eq in E. subst c. discriminate.
+  - exists c, r. split; [reflexivity|]. intros E. subst c. discriminate.
+  - apply (id_chars_exclude nl); [reflexivity|exact Hall].
+Qed.
+
+Lemma type_in_domain_inv : forall t, type_in_domain t = true ->
+    typ_facts t /\ mem_c nl t = false /\ no_rest_token t = true
+    /\ exists nq, needs_quoting (Some t) = Ok nq.
+Proof.
+  intros t H. unfold type_in_domain in H.
+  repeat (apply andb_true_iff in H; let H' := fresh "Hc" in destruct H as [H H']).
+  apply negb_true_iff in Hc, Hc0, Hc3, Hc4.
+  assert (Hne : t <> []). { intros E. subst t. discriminate. }
+  split; [split; [exact Hc4|split; [exact Hne|split; [exact Hc|exact Hc0]]]|].
+  split; [exact Hc3|]. split; [exact Hc1|].
+  destruct (needs_quoting (Some t)) as [nq|e]; [exists nq; reflexivity|discriminate].
+Qed.
+
+Lemma clean_line_facts : forall d, d <> [] -> clean_line d = true -> starts_optional d = false -> doc_fine d.
+Proof.
+  intros d Hne Hc Ho. unfold clean_line in Hc. apply andb_true_iff in Hc. destruct Hc as [Hs Hn].
+  apply str_eqb_eq in Hs. apply negb_true_iff in Hn.
+  split; [exact Hne|]. split; [exact Hn|]. split; [|exact Ho]. apply strip_fix_edge_ok; assumption.
+Qed.
+
+Lemma journey_inv : forall edd typ s v, default_journey edd typ s v = None ->
+  exists v1 typ1 w1,
+    coerce_default None s = Ok v1 /\ infer_res Missing (unquote_val v1) = Ok (typ1, w1)
+    /\ match typ with
+       | None => typ1 = Missing
+                 /\ (if edd then same_val v (unquote_val v1) = true
+                     else settled Missing w1 = true /\ same_val v w1 = true)
+       | Some t =>
+         if edd then exists v2 w2, coerce_default (Some t) s = Ok v2
+                                  /\ infer_res (Has t) (unquote_val v2) = Ok (Has t, w2)
+                                  /\ same_val v (unquote_val v2) = true
+         else exists w2, infer_res (Has t) w1 = Ok (Has t, w2) /\ settled (Has t) w2 = true
+                         /\ same_val v w2 = true
+       end.
+Proof.
+  intros edd typ s v H. unfold default_journey in H.
+  destruct (coerce_default None s) as [v1|e] eqn:Ev1; [|destruct e; discriminate].
+  destruct (infer_res Missing (unquote_val v1)) as [[typ1 w1]|e] eqn:Er1; [|destruct e; discriminate].
+  exists v1, typ1, w1. split; [reflexivity|]. split; [exact Er1|].
+  destruct typ as [t|].
+  - destruct edd.
+    + destruct (coerce_default (Some t) s) as [v2|e] eqn:Ev2; [|destruct e; discriminate].
+      destruct (infer_res (Has t) (unquote_val v2)) as [[typ2 w2]|e] eqn:Er2; [|destruct e; discriminate].
+      destruct (fld_eqb typ2 (Has t)) eqn:Et; cbn [negb] in H; [|discriminate].
+      apply fld_eqb_eq in Et. subst typ2.
+      destruct (same_val v (unquote_val v2)) eqn:Es; [|discriminate].
+      exists v2, w2. split; [reflexivity|]. split; [exact Er2|exact Es].
+    + destruct (infer_res (Has t) w1) as [[typ2 w2]|e] eqn:Er2; [|destruct e; discriminate].
+      destruct (fld_eqb typ2 (Has t)) eqn:Et; cbn [negb orb] in H; [|discriminate].
+      apply fld_eqb_eq in Et. subst typ2.
+      destruct (settled (Has t) w2) eqn:Eset; cbn [negb] in H; [|discriminate].
+      destruct (same_val v w2) eqn:Es; [|discriminate].
+      exists w2. split; [reflexivity|]. split; [exact Eset|exact Es].
+  - destruct (fld_eqb typ1 Missing) eqn:Et; cbn [negb] in H; [|discriminate].
+    apply fld_eqb_eq in Et. split; [exact Et|]. destruct edd.
+    + destruct (same_val v (unquote_val v1)) eqn:Es; [reflexivity|discriminate].
+    + destruct (settled Missing w1) eqn:Eset; cbn [negb] in H; [|discriminate].
+      destruct (same_val v w1) eqn:Es; [split; reflexivity|discriminate].
+Qed.
+
+(* the shapes of a parameter entry outside every finding class *)
+Lemma param_class_inv : forall edd n g,
+    endswith (L "kwargs") n = false -> entry_in_domain g = true -> param_class edd n g = None ->
+    (fld_str (g_doc g) = None /\ exists t, g_typ g = Has t /\ type_in_domain t = true /\ g_default g = None)
+    \/ (exists d typ,
+           g_doc g = Has d /\ doc_fine d /\ no_announce d = true /\ no_rest_token d = true
+           /\ g_typ g = fld_of_opt typ /\ (forall t, typ = Some t -> type_in_domain t = true)
+           /\ (g_default g = None
+               \/ exists v s, g_default g = Some (DV v) /\ guard_C17 ADefaultsTo d v typ = true
+                              /\ shown_value v typ = Ok s /\ value_text_clean s = true
+                              /\ default_journey edd typ s v = None)).
+Proof.
+  intros edd n g Hk Hdom Hc. unfold entry_in_domain in Hdom.
+  apply andb_true_iff in Hdom. destruct Hdom as [Hdom Hdd].
+  apply andb_true_iff in Hdom. destruct Hdom as [Hdoc Htyp].
+  (* the declared type, as the emitters see it *)
+  assert (Ht : exists typ, g_typ g = fld_of_opt typ /\ fld_str (g_typ g) = typ
+                           /\ forall t, typ = Some t -> type_in_domain t = true).
+  { destruct (g_typ g) as [| |t]; [exists None; repeat split; intros t E; discriminate|discriminate|].
+    exists (Some t). destruct (type_in_domain_inv t Htyp) as [[_ [Hne _]] _].
+    destruct t as [|c r]; [contradiction|]. repeat split. intros t' E. injection E as E. subst t'. exact Htyp. }
+  destruct Ht as [typ [Etyp [Efs Htd]]].
+  unfold param_class in Hc. rewrite Efs, Hk in Hc.
+  destruct (fld_str (g_doc g)) as [d|] eqn:Ed.
+  - right.
+    assert (Edoc : g_doc g = Has d).
+    { destruct (g_doc g) as [| |[|c r]]; try discriminate. cbn [fld_str] in Ed. injection Ed as Ed. subst d. reflexivity. }
+    assert (Hne : d <> []). { destruct (g_doc g) as [| |[|c r]]; try discriminate. cbn [fld_str] in Ed. injection Ed as Ed. subst d. discriminate. }
+    rewrite Edoc in Hdoc.
+    destruct (clean_line d) eqn:Ecl; cbn [negb] in Hc; [|discriminate].
+    destruct (starts_optional d) eqn:Eop; [discriminate|].
+    destruct (no_announce d) eqn:Ena; cbn [negb] in Hc; [|discriminate].
+    exists d, typ. split; [exact Edoc|]. split; [apply clean_line_facts; assumption|].
+    split; [exact Ena|]. split; [exact Hdoc|]. split; [exact Etyp|]. split; [exact Htd|].
+    destruct (g_default g) as [[v|e|r]|]; [|discriminate|discriminate|left; reflexivity].
+    right.
+    destruct (finding_class_C17 ADefaultsTo d v typ) as [k|] eqn:Ek; [destruct k; discriminate|].
+    destruct (shown_value v typ) as [s|e] eqn:Es; [|discriminate].
+    destruct (value_text_clean s) eqn:Ev; cbn [negb] in Hc; [|discriminate].
+    exists v, s. split; [reflexivity|]. split.
+    { unfold guard_C17, C17_domain. rewrite Ek, Ena. destruct d; [contradiction|reflexivity]. }
+    split; [exact Es|]. split; [exact Ev|exact Hc].
+  - left. split; [reflexivity|].
+    destruct typ as [t|]; [|discriminate].
+    destruct (g_default g); [discriminate|].
+    exists t. split; [|split; [apply Htd; reflexivity|reflexivity]].
+    rewrite Etyp. reflexivity.
+Qed.
+
+(* ------------------------------------------------------------------ *)
+(* entries as blocks of text                                           *)
+(* ------------------------------------------------------------------ *)
+
+Definition dblock (n val ws : str) : str * str := (L ":param", sp :: n ++ colon :: sp :: val ++ ws).
+Definition tblock (n t ws : str) : str * str :=
+  (L ":type", sp :: n ++ colon :: sp :: (L "```" ++ t ++ L "```") ++ ws).
+Definition as_line (b : str * str) : bool * str := (true, blk b).
+
+Record entry : Type := mkE {
+  e_name : str;
+  e_blocks : list (str * str);
+  e_mid : param;
+  e_fin : param
+}.
+
+Definition block_good (b : str * str) : Prop := In (fst b) rest_scan_tokens /\ no_rest_token (snd b) = true.
+
+Definition name_basic (n : str) : Prop := mem_c colon n = false /\ exists c r, n = c :: r /\ c <> ch 42.
+
+Lemma good_name_basic : forall n, good_name n -> name_basic n.
+Proof. intros n [H1 [_ H3]]. split; assumption. Qed.
+
+Definition entry_ok (ww edd : bool) (e : entry) : Prop :=
+  name_basic (e_name e)
+  /\ entry_spec ww edd (e_name e) (map as_line (e_blocks e)) (e_mid e) (e_fin e)
+  /\ (forall b, In b (e_blocks e) -> block_good b)
+  /\ e_blocks e <> [].
+
+Lemma dblock_good : forall n val ws,
+    mem_c colon n = false -> no_rest_token val = true -> forallb isspace ws = true -> block_good (dblock n val ws).
+Proof.
+  intros n val ws Hn Hv Hws. split.
+  - left. reflexivity.
+  - apply key_body_token_free; assumption.
+Qed.
+
+Lemma tblock_good : forall n t ws,
+    mem_c colon n = false -> no_rest_token t = true -> forallb isspace ws = true -> block_good (tblock n t ws).
+Proof.
+  intros n t ws Hn Ht Hws. split.
+  - right. right. right. right. left. reflexivity.
+  - apply key_body_token_free; [exact Hn|apply bt_wrapped_token_free; exact Ht|exact Hws].
+Qed.
+
+(* ---- the text of one entry ---- *)
+
+Lemma iabf_single : forall c r, isspace c = false -> mem_c nl (c :: r) = false ->
+    indent_all_but_first (c :: r) 1 false = c :: r.
+Proof.
+  intros c r Hc Hnl. unfold indent_all_but_first, indent.
+  rewrite (split_nl_single (c :: r) Hnl). cbn [indent_lines forallb]. rewrite Hc. cbn [andb join].
+  assert (Et : repeat_str tab 1 = tab) by (unfold repeat_str; cbn [repeat concat]; apply app_nil_r).
+  rewrite Et.
+  assert (Hnl' : mem_c nl (tab ++ c :: r) = false).
+  { rewrite mem_c_app, Hnl. reflexivity. }
+  rewrite (split_nl_single _ Hnl'). cbn [join].
+  rewrite (lstrip_pad tab (c :: r) eq_refl).
+  unfold lstrip. apply lstrip_by_id. intros c' Hc'. injection Hc' as Hc'. subst c'. exact Hc.
+Qed.
+
+Lemma doc_line_text : forall n val ws,
+    (L ":" ++ (L "param " ++ n) ++ L ": " ++ val) ++ ws = blk (dblock n val ws).
+Proof. intros n val ws. unfold blk, dblock. cbn [fst snd]. rewrite <- !app_assoc. reflexivity. Qed.
+
+Lemma typ_line_text : forall n t ws,
+    (L ":" ++ (L "type " ++ n) ++ L ": ```" ++ t ++ L "```") ++ ws = blk (tblock n t ws).
+Proof. intros n t ws. unfold blk, tblock. cbn [fst snd]. rewrite <- !app_assoc. reflexivity. Qed.
+
+Lemma line_no_nl_doc : forall n val, mem_c nl n = false -> mem_c nl val = false ->
+    mem_c nl (L ":" ++ (L "param " ++ n) ++ L ": " ++ val) = false.
+Proof. intros n val Hn Hv. rewrite !mem_c_app, Hn, Hv. reflexivity. Qed.
+
+Lemma line_no_nl_typ : forall n t, mem_c nl n = false -> mem_c nl t = false ->
+    mem_c nl (L ":" ++ (L "type " ++ n) ++ L ": ```" ++ t ++ L "```") = false.
+Proof. intros n t Hn Ht. rewrite !mem_c_app, Hn, Ht. reflexivity. Qed.
+
+Lemma iabf_colon_line : forall x, mem_c nl (L ":" ++ x) = false -> indent_all_but_first (L ":" ++ x) 1 false = L ":" ++ x.
+Proof. intros x H. apply (iabf_single colon x); [reflexivity|exact H]. Qed.
+
+(* the text of a parameter from its two optional lines *)
+Lemma rest_param_text_of_lines : forall n g odoc otyp,
+    rest_param_lines n g
+    = Ok ((match odoc with Some D => [L ":" ++ (L "param " ++ n) ++ L ": " ++ D] | None => [] end)
+          ++ (match otyp with Some t => [L ":" ++ (L "type " ++ n) ++ L ": ```" ++ t ++ L "```"] | None => [] end)) ->
+    mem_c nl n = false ->
+    (forall D, odoc = Some D -> mem_c nl D = false) -> (forall t, otyp = Some t -> mem_c nl t = false) ->
+    odoc <> None \/ otyp <> None ->
+    exists txt, rest_param_text n g = Ok txt
+      /\ txt ++ nl2 = concat (map blk ((match odoc with
+                                        | Some D => [dblock n D (match otyp with Some _ => nl1 | None => nl2 end)]
+                                        | None => [] end)
+                                       ++ (match otyp with Some t => [tblock n t nl2] | None => [] end))).
+Proof.
+  intros n g odoc otyp Hl Hn HD Ht Hsome. unfold rest_param_text. rewrite Hl. cbn [bind].
+  destruct odoc as [D|]; destruct otyp as [t|]; cbn [app map join concat].
+  - pose proof (line_no_nl_doc n D Hn (HD D eq_refl)) as H1.
+    pose proof (line_no_nl_typ n t Hn (Ht t eq_refl)) as H2.
+    rewrite (iabf_colon_line _ H1), (iabf_colon_line _ H2).
+    eexists. split; [reflexivity|]. rewrite app_nil_r.
+    rewrite <- doc_line_text, <- typ_line_text. unfold nl1, nl2.
+    change (?a :: ?x) with ([a] ++ x) at 1. rewrite <- !app_assoc. reflexivity.
+  - pose proof (line_no_nl_doc n D Hn (HD D eq_refl)) as H1.
+    rewrite (iabf_colon_line _ H1).
+    eexists. split; [reflexivity|]. rewrite app_nil_r. rewrite <- doc_line_text. reflexivity.
+  - pose proof (line_no_nl_typ n t Hn (Ht t eq_refl)) as H2.
+    rewrite (iabf_colon_line _ H2).
+    eexists. split; [reflexivity|]. rewrite app_nil_r. rewrite <- typ_line_text. reflexivity.
+  - exfalso. destruct Hsome as [H|H]; apply H; reflexivity.
+Qed.
+
+(* ------------------------------------------------------------------ *)
+(* one parameter of the guard as an entry                              *)
+(* ------------------------------------------------------------------ *)
+
+Lemma rest_param_lines_eq : forall n gd T gdf odoc typ,
+    str_eqb n (L "return_type") = false ->
+    T = fld_of_opt typ -> (forall t, typ = Some t -> t <> []) ->
+    (match odoc with
+     | None => truthy_fld gd = false
+     | Some D => exists d p p', gd = Has d /\ d <> [] /\ param_of_gparam (mkG gd T gdf) = Some p
+                               /\ set_default_doc n p true = Ok p' /\ p_doc p' = Has D
+     end) ->
+    rest_param_lines n (mkG gd T gdf)
+    = Ok ((match odoc with Some D => [L ":" ++ (L "param " ++ n) ++ L ": " ++ D] | None => [] end)
+          ++ (match typ with Some t => [L ":" ++ (L "type " ++ n) ++ L ": ```" ++ t ++ L "```"] | None => [] end)).
+Proof.
+  intros n gd T gdf odoc typ Hrt ET Hne Hdoc. unfold rest_param_lines. cbv zeta. rewrite Hrt.
+  cbn [g_doc g_typ].
+  assert (Etl : (match T with
+                 | Has (c :: t) => [L ":" ++ (L "type " ++ n) ++ L ": ```" ++ (c :: t) ++ L "```"]
+                 | _ => [] end)
+                = match typ with Some t => [L ":" ++ (L "type " ++ n) ++ L ": ```" ++ t ++ L "```"] | None => [] end).
+  { subst T. destruct typ as [t|]; [|reflexivity]. cbn [fld_of_opt].
+    destruct t as [|c t]; [exfalso; apply (Hne [] eq_refl); reflexivity|reflexivity]. }
+  destruct odoc as [D|].
+  - destruct Hdoc as [d [p [p' [Egd [Hd [Hp [Hs HD]]]]]]].
+    assert (Etr : truthy_fld gd = true). { subst gd. destruct d; [contradiction|reflexivity]. }
+    rewrite Etr, Hp, Hs. cbn [bind]. rewrite HD. cbn [bind]. do 2 f_equal. exact Etl.
+  - rewrite Hdoc. cbn [bind]. do 2 f_equal. exact Etl.
+Qed.
+
+Lemma same_entry_intro : forall (edd : bool) n g g',
+    same_typ g g' = true ->
+    (if edd then same_prose_dflt n g g' else same_prose g g') = true ->
+    same_default_ir (g_default g) (g_default g') = true ->
+    same_entry edd n g g' = true.
+Proof. intros edd n g g' H1 H2 H3. unfold same_entry. rewrite H1, H2, H3. reflexivity. Qed.
+
+Lemma same_prose_dflt_of_same : forall n g g', same_prose g g' = true -> same_prose_dflt n g g' = true.
+Proof. intros n g g' H. unfold same_prose_dflt. rewrite H. reflexivity. Qed.
+
+Lemma opt_eqb_str_refl : forall o : option str, opt_eqb str_eqb o o = true.
+Proof. intros [x|]; [apply str_eqb_refl|reflexivity]. Qed.
+
+Lemma fld_str_nonempty : forall x, x <> [] -> fld_str (Has x) = Some x.
+Proof. intros [|c r] H; [contradiction|reflexivity]. Qed.
+
+Theorem param_entry : forall ww edd n g,
+    is_ident n = true -> endswith (L "kwargs") n = false -> str_eqb n (L "return_type") = false ->
+    entry_in_domain g = true -> param_class edd n g = None ->
+    exists e, e_name e = n /\ entry_ok ww edd e
+              /\ (exists txt, rest_param_text n g = Ok txt /\ txt ++ nl2 = concat (map blk (e_blocks e)))
+              /\ same_entry edd n g (gparam_of_param (e_fin e)) = true.
+Proof.
+  intros ww edd n g Hid Hk Hrt Hdom Hc.
+  destruct (is_ident_good n Hid Hk) as [Hgood Hnnl].
+  pose proof Hgood as [Hcolon [Hplain _]].
+  destruct (param_class_inv edd n g Hk Hdom Hc) as
+      [[Hnodoc [t [Et [Htd Edf]]]] | [d [typ [Ed [Hdf [Hna [Hdtok [Et [Htd Hdflt]]]]]]]]].
+  - (* type only *)
+    destruct (type_in_domain_inv t Htd) as [Htf [Htnl [Httok _]]].
+    destruct g as [gd gt gdf]. cbn [g_doc g_typ g_default] in *. subst gt gdf.
+    exists (mkE n [tblock n t nl2] (mkParam Missing (Has t) None) (mkParam Missing (Has t) None)).
+    split; [reflexivity|]. split; [|split].
+    + split; [exact (good_name_basic n Hgood)|]. split; [apply entry_nodefault_typ; assumption|]. split; [|discriminate].
+      intros b [Hb|[]]. subst b. apply tblock_good; [exact Hcolon|exact Httok|reflexivity].
+    + apply (rest_param_text_of_lines n _ None (Some t)).
+      * apply (rest_param_lines_eq n gd (Has t) None None (Some t) Hrt eq_refl).
+        -- intros t' E. injection E as E. subst t'. apply Htf.
+        -- destruct gd as [| |[|c r]]; try reflexivity. discriminate.
+      * exact Hnnl.
+      * intros D E. discriminate.
+      * intros t' E. injection E as E. subst t'. exact Htnl.
+      * right. discriminate.
+    + cbn [e_fin]. apply same_entry_intro.
+      * unfold same_typ. cbn [g_typ gparam_of_param p_typ]. apply opt_eqb_str_refl.
+      * assert (Hsp : same_prose (mkG gd (Has t) None) (gparam_of_param (mkParam Missing (Has t) None)) = true).
+        { unfold same_prose. cbn [g_doc gparam_of_param p_doc]. rewrite Hnodoc. reflexivity. }
+        destruct edd; [apply same_prose_dflt_of_same|]; exact Hsp.
+      * reflexivity.
+  - (* prose, with or without type *)
+    assert (Htfacts : forall t, typ = Some t -> typ_facts t /\ mem_c nl t = false /\ no_rest_token t = true).
+    { intros t E. destruct (type_in_domain_inv t (Htd t E)) as [H1 [H2 [H3 _]]]. split; [exact H1|split; [exact H2|exact H3]]. }
+    assert (Htne : forall t, typ = Some t -> t <> []).
+    { intros t E. destruct (Htfacts t E) as [[_ [H _]] _]. exact H. }
+    assert (Hprose : prose_facts d) by (split; assumption).
+    assert (Hdne : d <> []) by apply Hdf.
+    assert (Hdnl : mem_c nl d = false) by apply Hdf.
+    destruct g as [gd gt gdf]. cbn [g_doc g_typ g_default] in *. subst gd gt.
+    assert (Htyp_same : forall p, p_typ p = fld_of_opt typ ->
+               same_typ (mkG (Has d) (fld_of_opt typ) gdf) (gparam_of_param p) = true).
+    { intros p Ep. unfold same_typ. cbn [g_typ gparam_of_param]. rewrite Ep.
+      apply opt_eqb_str_refl. }
+    destruct Hdflt as [Edf | [v [s [Edf [Hg [Hs [Hclean Hj]]]]]]].
+    + (* no default *)
+      subst gdf.
+      assert (Hlines : rest_param_lines n (mkG (Has d) (fld_of_opt typ) None)
+                = Ok ([L ":" ++ (L "param " ++ n) ++ L ": " ++ d]
+                      ++ match typ with Some t => [L ":" ++ (L "type " ++ n) ++ L ": ```" ++ t ++ L "```"] | None => [] end)).
+      { apply (rest_param_lines_eq n (Has d) (fld_of_opt typ) None (Some d) typ Hrt eq_refl Htne).
+        exists d, (mkParam (Has d) (fld_of_opt typ) None), (mkParam (Has d) (fld_of_opt typ) None).
+        split; [reflexivity|]. split; [exact Hdne|]. split; [reflexivity|]. split; [|reflexivity].
+        apply set_default_doc_no_default; [reflexivity|discriminate]. }
+      assert (Hsame : forall T : unit, same_entry edd n (mkG (Has d) (fld_of_opt typ) None)
+                                (gparam_of_param (mkParam (Has d) (fld_of_opt typ) None)) = true).
+      { intros _. apply same_entry_intro; [apply Htyp_same; reflexivity| |reflexivity].
+        assert (Hsp : same_prose (mkG (Has d) (fld_of_opt typ) None)
+                                 (gparam_of_param (mkParam (Has d) (fld_of_opt typ) None)) = true).
+        { unfold same_prose. cbn [g_doc gparam_of_param p_doc]. apply opt_eqb_str_refl. }
+        destruct edd; [apply same_prose_dflt_of_same|]; exact Hsp. }
+      destruct typ as [t|].
+      * destruct (Htfacts t eq_refl) as [Htf [Htnl Httok]].
+        exists (mkE n [dblock n d nl1; tblock n t nl2] (mkParam (Has d) (Has t) None) (mkParam (Has d) (Has t) None)).
+        split; [reflexivity|]. split; [|split].
+        -- split; [exact (good_name_basic n Hgood)|]. split; [apply entry_nodefault_doc_typ; assumption|]. split; [|discriminate].
+           intros b [Hb|[Hb|[]]]; subst b;
+             [apply dblock_good|apply tblock_good]; try assumption; reflexivity.
+        -- apply (rest_param_text_of_lines n _ (Some d) (Some t) Hlines Hnnl).
+           ++ intros D E. injection E as E. subst D. exact Hdnl.
+           ++ intros t' E. injection E as E. subst t'. exact Htnl.
+           ++ left. discriminate.
+        -- cbn [e_fin]. apply (Hsame tt).
+      * exists (mkE n [dblock n d nl2] (mkParam (Has d) Missing None) (mkParam (Has d) Missing None)).
+        split; [reflexivity|]. split; [|split].
+        -- split; [exact (good_name_basic n Hgood)|]. split; [apply entry_nodefault_doc; assumption|]. split; [|discriminate].
+           intros b [Hb|[]]; subst b. apply dblock_good; try assumption; reflexivity.
+        -- apply (rest_param_text_of_lines n _ (Some d) None Hlines Hnnl).
+           ++ intros D E. injection E as E. subst D. exact Hdnl.
+           ++ intros t' E. discriminate.
+           ++ left. discriminate.
+        -- cbn [e_fin]. apply (Hsame tt).
+    + (* a default: the sentence *)
+      subst gdf.
+      destruct (sentence_written n d v typ s Hg Hs Hk) as [v' Hw].
+      destruct (sentence_fine d s Hdf Hclean Hdtok) as [HDwf HDwtok].
+      assert (HDwnl : mem_c nl (sentence d s) = false) by apply HDwf.
+      assert (Hlines : rest_param_lines n (mkG (Has d) (fld_of_opt typ) (Some (DV v)))
+                = Ok ([L ":" ++ (L "param " ++ n) ++ L ": " ++ sentence d s]
+                      ++ match typ with Some t => [L ":" ++ (L "type " ++ n) ++ L ": ```" ++ t ++ L "```"] | None => [] end)).
+      { apply (rest_param_lines_eq n (Has d) (fld_of_opt typ) (Some (DV v)) (Some (sentence d s)) typ Hrt eq_refl Htne).
+        exists d, (mkParam (Has d) (fld_of_opt typ) (Some v)), (mkParam (Has (sentence d s)) (fld_of_opt typ) (Some v')).
+        split; [reflexivity|]. split; [exact Hdne|]. split; [reflexivity|]. split; [exact Hw|reflexivity]. }
+      (* what the comparison needs of the final dict *)
+      assert (Hsame : forall vfin, same_val v vfin = true ->
+                 same_entry edd n (mkG (Has d) (fld_of_opt typ) (Some (DV v)))
+                            (gparam_of_param (mkParam (Has (if edd then sentence d s else d)) (fld_of_opt typ) (Some vfin))) = true).
+      { intros vfin Hv. apply same_entry_intro; [apply Htyp_same; reflexivity| |].
+        - destruct edd.
+          + unfold same_prose_dflt, sentence_doc. cbn [param_of_gparam g_default g_doc g_typ].
+            rewrite Hw. cbn [p_doc gparam_of_param g_doc].
+            assert (Hne' : sentence d s <> []) by apply HDwf.
+            destruct (sentence d s) as [|c0 r0]; [contradiction|].
+            cbn [fld_str]. rewrite str_eqb_refl. apply orb_true_r.
+          + unfold same_prose. cbn [g_doc gparam_of_param p_doc]. apply opt_eqb_str_refl.
+        - cbn [g_default gparam_of_param p_default option_map same_default_ir dval_eqb none_like_d]. exact Hv. }
+      destruct (journey_inv edd typ s v Hj) as [v1 [typ1 [w1 [Hv1 [Hr1 Hcase]]]]].
+      destruct typ as [t|].
+      * destruct (Htfacts t eq_refl) as [Htf [Htnl Httok]].
+        assert (Hex : exists w2 vfin,
+                   (if edd
+                    then exists v2, coerce_default (Some t) s = Ok v2
+                                    /\ infer_res (Has t) (unquote_val v2) = Ok (Has t, w2) /\ vfin = unquote_val v2
+                    else infer_res (Has t) w1 = Ok (Has t, w2) /\ settled (Has t) w2 = true /\ vfin = w2)
+                   /\ same_val v vfin = true).
+        { destruct edd.
+          - destruct Hcase as [v2 [w2 [H1 [H2 H3]]]]. exists w2, (unquote_val v2). split; [|exact H3].
+            exists v2. repeat split; assumption.
+          - destruct Hcase as [w2 [H1 [H2 H3]]]. exists w2, w2. split; [|exact H3]. repeat split; assumption. }
+        destruct Hex as [w2 [vfin [Hjj Hsv]]].
+        exists (mkE n [dblock n (sentence d s) nl1; tblock n t nl2]
+                    (mkParam (Has (if edd then sentence d s else d)) (Has t) (Some w2))
+                    (mkParam (Has (if edd then sentence d s else d)) (Has t) (Some vfin))).
+        split; [reflexivity|]. split; [|split].
+        -- split; [exact (good_name_basic n Hgood)|]. split.
+           { apply (entry_default_typ ww edd n d s v (Some t) Hgood Hprose Hdtok Hg Hs Hclean
+                                      t v1 typ1 w1 w2 vfin eq_refl Htf Hv1 Hr1 Hjj). }
+           split; [|discriminate].
+           intros b [Hb|[Hb|[]]]; subst b;
+             [apply dblock_good|apply tblock_good]; try assumption; reflexivity.
+        -- apply (rest_param_text_of_lines n _ (Some (sentence d s)) (Some t) Hlines Hnnl).
+           ++ intros D E. injection E as E. subst D. exact HDwnl.
+           ++ intros t' E. injection E as E. subst t'. exact Htnl.
+           ++ left. discriminate.
+        -- cbn [e_fin]. apply (Hsame vfin Hsv).
+      * destruct Hcase as [Etyp1 Hcase]. subst typ1.
+        exists (mkE n [dblock n (sentence d s) nl2]
+                    (mkParam (Has (if edd then sentence d s else d)) Missing (Some w1))
+                    (mkParam (Has (if edd then sentence d s else d)) Missing (Some (if edd then unquote_val v1 else w1)))).
+        split; [reflexivity|]. split; [|split].
+        -- split; [exact (good_name_basic n Hgood)|]. split.
+           { apply (entry_default_notyp ww edd n d s v None Hgood Hprose Hdtok Hg Hs Hclean v1 w1 eq_refl Hv1 Hr1).
+             intros E. subst edd. apply Hcase. }
+           split; [|discriminate].
+           intros b [Hb|[]]; subst b. apply dblock_good; try assumption; reflexivity.
+        -- apply (rest_param_text_of_lines n _ (Some (sentence d s)) None Hlines Hnnl).
+           ++ intros D E. injection E as E. subst D. exact HDwnl.
+           ++ intros t' E. discriminate.
+           ++ left. discriminate.
+        -- cbn [e_fin]. apply (Hsame (if edd then unquote_val v1 else w1)). destruct edd; [exact Hcase|apply Hcase].
+Qed.
